@@ -29,7 +29,7 @@ SYMS = [
         subst=[(r"return\s+matrix3x2<T>\s*\(" + SIX + r"\)\s*;", six_to("t_", "".join("%s = t_%s; " % (c, c) for c in F6))),
                (r"\bm1\.(\w)\b", r"\1"), (r"\bm2\.(\w)\b", r"m\1"), (r"\bm\.(\w)\b", r"m\1"),
                (r"return \*this;", "return;"),
-               (r"T const (\w+) = (\w+), (\w+) = (\w+);", r"long \1 = \2; long \3 = \4;"), (r"\bT const\b", "long"), (r"\bT\b", "long")],
+               (r"\bT const ([^;]+);", lambda mm: " ".join("long %s;" % d.strip() for d in mm.group(1).split(","))), (r"\bT\b", "long")],   # `T const a0 = a, c0 = c;` -> one declaration each
         doc="matrix3x2<long>::operator*= : the six members afterwards"),
     # operator*(point, matrix) = transform(matrix, point)
     Sym(H, r"point<F> operator\*\(point<T> const& p, matrix3x2<F> const& m\)", "pt_mul", P("m") + [("px", "long"), ("py", "long")],
